@@ -1,2 +1,4 @@
 import Gengo.Basic.Str
 import Gengo.Basic.Proto
+import Gengo.Props.C08
+import Gengo.Props.C19
